@@ -236,7 +236,7 @@ def curve_case(rec, tap, rng, cid, large_clean=False):
     f = ref.force(mk, z, dict(prm, contact_point=0.0, baseline=0.0))
     Fmax = float(f.max())
     noise = float(rng.choice([0, 0, .002, .01, .03]))
-    tilt = float(rng.choice([0, 0, 0, .05]))
+    tilt = float(rng.choice([0, 0, 0, .05, -.05]))
     offs = float(rng.choice([0, rng.uniform(-3, 3)]))
     if large_clean:
         noise = tilt = 0.0
@@ -262,6 +262,21 @@ def curve_case(rec, tap, rng, cid, large_clean=False):
             continue
         if MTAP is not None:
             judge_internal(rec, m, MTAP.poc_log[n_log:], case, large_clean)
+        if noise == 0 and tilt < 0 and m == "deviation_from_baseline":
+            # noise-free curves whose baseline drifts DOWN by 5 % of the
+            # maximum force: the threshold estimator still finds the rise
+            # (unchanged tree: error <= 0.11 N in 300 curves; bound 0.25 N)
+            err = abs(i0 - true) / N
+            rec.maximum("downward-drift error/N " + m, err)
+            rec.event("downward-drift estimates " + m)
+            acc = ACC_STATS.setdefault(m + " (downward drift)", [0, 0, None])
+            acc[0] += 1
+            if err > .25:
+                acc[1] += 1
+                if acc[2] is None:
+                    acc[2] = ("|i-true|/N = %.3f > 0.25 (i=%d true=%d) on a "
+                              "noise-free curve with downward baseline "
+                              "drift" % (err, i0, true), dict(case, method=m))
         if clean:
             err = abs(i0 - true) / N
             rec.maximum("clean-curve error/N " + m, err)
